@@ -50,6 +50,26 @@ def main():
                         pixtopgm.convert(f, out)
                 finally:
                     os.unlink(name)
+            elif tool == "veftopng":
+                from coco import veftopng
+                d = os.environ.get("XDG_RUNTIME_DIR") or "/dev/shm"
+                with tempfile.NamedTemporaryFile(dir=d, suffix=".vef", delete=False) as f:
+                    f.write(data)
+                    name = f.name
+                outname = name + ".png"
+                try:
+                    veftopng.start([name, outname])
+                    if os.path.exists(outname):
+                        import png
+                        try:
+                            w, h, rows, info = png.Reader(filename=outname).read()
+                            res["png"] = dict(width=w, height=h, samples=sum(len(r) for r in rows))
+                        except Exception as e:  # noqa
+                            res["png"] = dict(error="%s: %s" % (type(e).__name__, str(e)[:120]))
+                finally:
+                    for fn in (name, outname):
+                        if os.path.exists(fn):
+                            os.unlink(fn)
             elif tool == "unsquash":
                 from coco import veftopng
                 r = veftopng.unsquash(bytearray(data), o["count"], o["orig_len"])
